@@ -65,7 +65,8 @@ def main():
                "C06-10 respells a note on the same letter and pitch, C09-13 computes value.add in another floating-point form that "
                "differs from the modelled three roundings in the last bit, C09-16 retypes a dots() constant one ulp off, C17-18 "
                "truncates instead of rounding tick counts that are not whole (outside C17's stated domain; C16 reports it), C18-15 "
-               "changes the parallel scheduler only where the unchanged code is already wrong (known finding), see 0.3b), so "
+               "changes the parallel scheduler only where the unchanged code is already wrong (known finding), C11-19 changes only "
+               "the diminished unisons b1/bb1 (-1 and -2 semitones, outside the stated sizes 0-11), see 0.3b), so "
                "the report names the theorems that no longer check, as the brief prescribes." % (
                    n_rounds, 2 * n_rounds - 1, 2 * n_rounds, n_all - len(missed), n_all, n_conc, "" if not missed else "; not reported: " + ", ".join(missed) +
                    " (C15-15 makes chords.invert hand back the caller's own one-note list, which the statement of C15 does not forbid "
